@@ -5,14 +5,23 @@ Real daemons (thread-pool and multiplex transport servers, real request loops, r
 messages written in ONE send, so that whatever follows a failing first message is pipelined behind it in
 the same TCP segment).  After every segment the driver sends a sync PING and reads until its pong or
 EOF/RESET, which tells which replies belong to the segment and whether the server closed the connection.
-The registered object logs every execution (peer port, token).
+The registered objects log every execution (peer port, token): the application object "t" and the daemon's own
+built-in Pyro.Daemon object (replaced by a logging subclass through Daemon(interface=...)).
+
+Environments (run one after the other, the transport configuration is process-global):
+  plain     both server types, no COMMTIMEOUT; segments may end with the peer going away (EOF / a message cut short,
+            then shutdown of the sending side)
+  timeout   both server types with COMMTIMEOUT: single-connection cases with *silence* events
+  poolfull  thread server with THREADPOOL_SIZE=2 whose two workers are parked in a blocking call: every new
+            connection is refused by denyConnection from the accept loop
+  abort     throw-away servers: the validator raises a BaseException-only class (open finding)
 
   oracle          the property stated directly over these observations (no model involved)
   correspondence  the same case, with every message *classified* (type, well-formedness, serializer known?,
                   what the payload decodes to with the real serializer, validator behaviour), is evaluated by
                   Model/HandshakeGate.v inside Coq (Harness/H08.v) and compared segment by segment.
 """
-import json, struct, threading, time, zlib
+import json, socket, struct, sys, threading, time, zlib
 from tools.lib import vlib
 from tools.lib import rawdrv as rd
 from tools.lib.vlib import cN, cnat, cbool, clist
@@ -21,10 +30,11 @@ PROP = "C08"
 GEN = ["GenHandshake", "GenProtocol"]
 ASSUMPTIONS = [
     "message classification (does the payload decode, to what) is computed with the tree's own serializers; the model takes it as input",
-    "validator behaviours modelled: returns any value / raises any Exception subclass; BaseException-only classes (SystemExit, KeyboardInterrupt) are process-control signals and not covered",
-    "the peer keeps its socket open while it waits for answers (a vanishing peer only makes the daemon close sooner); EOF/truncation/silence/pool-full refusals are C05/C13 territory and not modelled here",
+    "validator behaviours modelled: returns any value / raises any Exception subclass / raises a BaseException-only class (SystemExit, KeyboardInterrupt, GeneratorExit, a user subclass)",
+    "a peer that goes away does so with a half-close after a prefix of an otherwise acceptable message (so that the daemon's reaction stays observable); resets in the middle of the daemon's answer are C05 territory",
+    "silence is only an event when COMMTIMEOUT is configured; silence cases use one connection at a time (time passes for every connection)",
+    "executions on the built-in Pyro.Daemon object are observed through a logging subclass given to Daemon(interface=...); its internal use by _handshake (get_metadata) is not counted as a call",
     "pre-connected socket pairs (svr_existingconn) are exempt by the property text",
-    "calls on the built-in Pyro.Daemon object are not generated (its methods do not log)",
 ]
 IMPORTS = "From V Require Import Model.HandshakeGate Harness.Cmp Harness.H08."
 
@@ -32,9 +42,14 @@ SYNC_BASE = 60000
 RECV_TIMEOUT = 2.5      # only ever waited out when the daemon neither answers nor closes (never on a correct tree)
 RECV_TIMEOUT_AFTER_MANY = 0.3   # once 20 such silences were seen (a broken tree), stop paying for them
 OBJ = "t"
-KNOWN_SIGS = ("silent-close-unknown-serializer", "silent-close-validator-connclosed")
+KNOWN_SIGS = ("silent-close-unknown-serializer", "silent-close-validator-connclosed", "validator-baseexception-unanswered")
+COMMTO = 0.5            # COMMTIMEOUT of the timeout / poolfull environments
+ABORT_RECV_TIMEOUT = 0.4
+DAEMON_OBJ = "Pyro.Daemon"
+ENV_ORDER = ["plain", "timeout", "poolfull", "abort"]
+PARK = threading.Event()
 
-EXEC_LOG = []      # (peer port, token, method)
+EXEC_LOG = []      # (peer port, token, method, on the daemon object?)
 
 
 def _exc_table():
@@ -62,7 +77,14 @@ def _exc_table():
          "SerializeError": errors.SerializeError, "DaemonError": errors.DaemonError, "NamingError": errors.NamingError,
          "MessageTooLargeError": errors.MessageTooLargeError,
          "CustomError": CustomError, "CustomConnClosed": CustomConnClosed, "OddStr": OddStr}
+
+    class StopServer(BaseException):
+        pass
+    t.update({"SystemExit": SystemExit, "KeyboardInterrupt": KeyboardInterrupt, "GeneratorExit": GeneratorExit, "StopServer": StopServer})
     return t
+
+
+ABORT_NAMES = ["SystemExit", "KeyboardInterrupt", "GeneratorExit", "StopServer"]
 
 
 EXC_NAMES = ["Exception", "ValueError", "KeyError", "TypeError", "RuntimeError", "OSError", "PermissionError",
@@ -80,58 +102,135 @@ VALUE_NAMES = sorted(VALUES)
 
 
 class Env:
-    """the two real daemons, kept for the whole run"""
+    """the real daemons of the current environment (plain / timeout / poolfull / abort)"""
     def __init__(self):
         self.servers = {}
+        self.envname = None
         self.vb = {}          # peer port -> validator behaviour spec
         self.exc = None
         self.quirks = {}
+        self.q3 = None
+        self.deny_reason = "no free workers, increase server threadpool size"   # replaced by the literal found in the source
         self.silences = 0
+        self.fillers = []
 
-    def server(self, sty):
+    def server(self, sty, envname="plain"):
+        if self.envname != envname:
+            self.stop()
+            self.envname = envname
         if sty not in self.servers:
-            import Pyro5.api as api
-            if self.exc is None:
-                self.exc = _exc_table()
-            env = self
-
-            def validator(conn, data):
-                port = conn.sock.getpeername()[1]
-                b = env.vb.get(port) or {"kind": "accept", "value": "hello"}
-                if b["kind"] == "raise":
-                    raise env.exc[b["cls"]](b["msg"])
-                return VALUES[b["value"]]()
-
-            class Target(object):
-                @api.expose
-                def ok(self, tok):
-                    EXEC_LOG.append((_peer_port(), tok, "ok"))
-                    return tok
-
-                @api.expose
-                def boom(self, tok):
-                    EXEC_LOG.append((_peer_port(), tok, "boom"))
-                    raise ValueError("boom %r" % (tok,))
-
-                def hidden(self, tok):          # not exposed: must never run
-                    EXEC_LOG.append((_peer_port(), tok, "hidden"))
-                    return tok
-
-                def _private(self, tok):
-                    EXEC_LOG.append((_peer_port(), tok, "_private"))
-                    return tok
-            srv = rd.Server(sty, validator=validator, pool_size=64, pool_min=4).start()
-            srv.register(Target(), OBJ)
-            self.servers[sty] = srv
+            self.servers[sty] = self._start(sty, envname)
         return self.servers[sty]
 
+    def _start(self, sty, envname):
+        import Pyro5.api as api
+        import Pyro5.server
+        if self.exc is None:
+            self.exc = _exc_table()
+        env = self
+
+        def validator(conn, data):
+            port = conn.sock.getpeername()[1]
+            b = env.vb.get(port) or {"kind": "accept", "value": "hello"}
+            if b["kind"] == "raise":
+                raise env.exc[b["cls"]](b["msg"])
+            if b["kind"] == "abort":
+                raise env.exc[b["cls"]]()
+            return VALUES[b["value"]]()
+
+        class Target(object):
+            @api.expose
+            def ok(self, tok):
+                EXEC_LOG.append((_peer_port(), tok, "ok", False))
+                return tok
+
+            @api.expose
+            def boom(self, tok):
+                EXEC_LOG.append((_peer_port(), tok, "boom", False))
+                raise ValueError("boom %r" % (tok,))
+
+            @api.expose
+            def park(self, tok):            # keeps a worker of the thread pool busy until released
+                EXEC_LOG.append((_peer_port(), tok, "park", False))
+                PARK.wait(60)
+                return tok
+
+            def hidden(self, tok):          # not exposed: must never run
+                EXEC_LOG.append((_peer_port(), tok, "hidden", False))
+                return tok
+
+            def _private(self, tok):
+                EXEC_LOG.append((_peer_port(), tok, "_private", False))
+                return tok
+
+        def dlog(name):
+            from Pyro5.api import current_context
+            EXEC_LOG.append((_peer_port(), current_context.seq, name, True))
+
+        @api.expose
+        class LoggingDaemonObject(Pyro5.server.DaemonObject):
+            """the daemon's own Pyro object; every remote call is logged with the request's sequence number"""
+            def registered(self):
+                dlog("registered")
+                return super().registered()
+
+            def ping(self):
+                dlog("ping")
+                return super().ping()
+
+            def info(self):
+                dlog("info")
+                return super().info()
+
+            def get_metadata(self, objectId):
+                if sys._getframe(1).f_code.co_name != "_handshake":     # the handshake's own lookup is not a call
+                    dlog("get_metadata")
+                return super().get_metadata(objectId)
+
+            def get_next_stream_item(self, streamId):
+                dlog("get_next_stream_item")
+                return super().get_next_stream_item(streamId)
+
+            def close_stream(self, streamId):
+                dlog("close_stream")
+                return super().close_stream(streamId)
+        kw = {"validator": validator, "daemon_kwargs": {"interface": LoggingDaemonObject}}
+        if envname == "plain":
+            srv = rd.Server(sty, pool_size=64, pool_min=4, **kw).start()
+        elif envname == "timeout":
+            srv = rd.Server(sty, commtimeout=COMMTO, pool_size=64, pool_min=4, **kw).start()
+        elif envname == "poolfull":
+            srv = rd.Server("thread", commtimeout=COMMTO, pool_size=2, pool_min=1, **kw).start()
+        else:
+            srv = rd.Server(sty, pool_size=8, pool_min=1, **kw).start()
+        srv.register(Target(), OBJ)
+        if envname == "poolfull":
+            PARK.clear()
+            del EXEC_LOG[:]
+            for k in range(2):
+                c, m = rd.handshake(srv.port, OBJ, timeout=5.0)
+                c.send(rd.invoke_msg(OBJ, "park", (900000 + k,), seq=1))
+                self.fillers.append(c)
+            t0 = time.time()
+            while len([e for e in EXEC_LOG if e[2] == "park"]) < 2 and time.time() - t0 < 5:
+                time.sleep(0.002)
+        return srv
+
+    def base_busy(self):
+        return len(self.fillers)
+
     def stop(self):
+        PARK.set()
+        for c in self.fillers:
+            c.close()
+        self.fillers = []
         for sty in reversed(list(self.servers)):
             try:
                 self.servers[sty].stop()
             except Exception:
                 pass
         self.servers = {}
+        self.envname = None
 
 
 def _peer_port():
@@ -172,9 +271,23 @@ def payload_bytes(spec, ser):
         return ser.dumpsCall(p["obj"], p["method"], ({"__class__": "builtins.__evil__"},), {})
     if k == "call_badargs":
         return ser.dumpsCall(p["obj"], p["method"], (p["tok"], 1, 2), {"zz": 1})
+    if k == "dcall":        # a call on the daemon's own object; the token of such a call is the message's seq
+        return ser.dumpsCall(DAEMON_OBJ, p["method"], tuple(p.get("args", [])), {})
     if k == "raw":
         return bytes.fromhex(p["hex"])
     raise ValueError(k)
+
+
+def is_special(item):
+    return "special" in item
+
+
+def special_bytes(item):
+    """bytes a peer sends before it goes away: a proper prefix of an otherwise acceptable message (or nothing)"""
+    if item["special"] == "gone" and item.get("trunc"):
+        data = build_message(item["trunc"])
+        return data[:max(0, min(item.get("cut", 0), len(data) - 1))]
+    return b""
 
 
 def build_message(spec):
@@ -261,18 +374,38 @@ def classify(spec, registered, vbspec, exc_table):
                 obj_known = registered.get(objid) is not None
             except Exception:
                 obj_known = False
-            meth, tok = "MUnknown", 0
+            meth, tok, target = "MUnknown", 0, "TUser"
             try:
                 if objid == OBJ and method in ("ok", "boom") and len(vargs) == 1 and not kwargs \
                         and isinstance(vargs[0], int) and not isinstance(vargs[0], bool) and vargs[0] >= 0:
                     meth = "MReturns" if method == "ok" else "MRaises"
                     tok = vargs[0]
+                elif objid == DAEMON_OBJ and not kwargs:
+                    target, tok = "TDaemon", spec["seq"]
+                    vargs = list(vargs)
+                    if method in ("ping", "registered", "info") and len(vargs) == 0:
+                        meth = "MReturns"
+                    elif method == "get_metadata" and len(vargs) == 1:
+                        try:
+                            meth = "MReturns" if registered.get(vargs[0]) is not None else "MRaises"
+                        except Exception:
+                            meth = "MRaises"
+                    elif method == "get_next_stream_item" and len(vargs) == 1:
+                        meth = "MRaises"          # no such stream (or an unhashable id)
+                    elif method == "close_stream" and len(vargs) == 1:
+                        try:
+                            hash(vargs[0])
+                            meth = "MReturns"
+                        except Exception:
+                            meth = "MRaises"
             except Exception:
                 pass
-            call = "CpCall %s %s %s" % (cbool(obj_known), meth, cN(tok))
+            call = "CpCall %s %s %s %s" % (cbool(obj_known), target, meth, cN(tok))
     # validator behaviour of this connection
     if vbspec["kind"] == "raise":
         val = "VRaise %s" % cbool(issubclass(exc_table[vbspec["cls"]], errors.ConnectionClosedError))
+    elif vbspec["kind"] == "abort":
+        val = "VAbort %s" % cbool(issubclass(exc_table[vbspec["cls"]], KeyboardInterrupt))
     else:
         okser = True
         if known:
@@ -286,14 +419,19 @@ def classify(spec, registered, vbspec, exc_table):
 
 
 def c_msg(cl):
-    return ("{| m_type := %s; m_wf := %s; m_ser := %s; m_ser_known := %s; m_seq := %s; m_oneway := %s; "
+    if cl.get("special") == "gone":
+        return "InPeerGone"
+    if cl.get("special") == "silence":
+        return "InSilence"
+    return ("InMsg {| m_type := %s; m_wf := %s; m_ser := %s; m_ser_known := %s; m_seq := %s; m_oneway := %s; "
             "m_hs := %s; m_call := %s; m_val := %s |}") % (
         cN(cl["type"]), cl["wf"], cN(cl["ser"]), cbool(cl["ser_known"]), cN(cl["seq"]), cbool(cl["oneway"]),
         cl["hs"], cl["call"], cl["val"])
 
 
 def c_reply(r):
-    rs = {None: "None", "validator": "(Some RsnValidator)", "unknown": "(Some RsnUnknownObject)", "other": "(Some RsnOther)"}[r["rsn"]]
+    rs = {None: "None", "validator": "(Some RsnValidator)", "unknown": "(Some RsnUnknownObject)", "denied": "(Some RsnDenied)",
+          "other": "(Some RsnOther)"}[r["rsn"]]
     return "{| or_type := %s; or_exc := %s; or_seq := %s; or_ser := %s; or_rsn := %s |}" % (
         cN(r["type"]), cbool(r["exc"]), cN(r["seq"]), cN(r["ser"]), rs)
 
@@ -303,11 +441,16 @@ def c_case(case, obs, cls):
     for i, (c, si) in enumerate(case["order"]):
         o = obs["segs"][i]
         msgs = clist([c_msg(m) for m in cls[i]])
-        segs.append("{| s_conn := %s; s_msgs := %s; s_replies := %s; s_execs := %s; s_closed := %s |}" % (
-            cnat(c), msgs, clist([c_reply(r) for r in o["replies"]]),
-            clist(["(%s, %s)" % (cnat(e[0]), cN(e[1])) for e in o["execs"]]), cbool(o["closed"])))
-    return "{| k_sty := %s; k_q1 := %s; k_q2 := %s; k_segs := %s |}" % (
-        "Thread" if case["sty"] == "thread" else "Multiplex", cbool(obs["q1"]), cbool(obs["q2"]), clist(segs))
+        segs.append("{| s_conn := %s; s_denied := %s; s_ins := %s; s_replies := %s; s_execs := %s; s_end := %s |}" % (
+            cnat(c), cbool(case_env(case) == "poolfull"), msgs, clist([c_reply(r) for r in o["replies"]]),
+            clist(["(%s, %s, %s)" % (cnat(e[0]), cbool(e[3]), cN(e[1])) for e in o["execs"]]),
+            {"open": "EndOpen", "closed": "EndClosed", "silent": "EndSilent"}[o["end"]]))
+    return "{| k_sty := %s; k_q1 := %s; k_q2 := %s; k_q3 := %s; k_segs := %s |}" % (
+        "Thread" if case["sty"] == "thread" else "Multiplex", cbool(obs["q1"]), cbool(obs["q2"]), cbool(obs["q3"]), clist(segs))
+
+
+def case_env(case):
+    return case.get("env", "plain")
 
 
 # ---------------------------------------------------------------- running one case on the real daemon
@@ -326,6 +469,8 @@ def canon_reply(env, m, vbspec):
             r["rsn"] = "validator"
         elif isinstance(v, str) and "unknown object" in v.lower():
             r["rsn"] = "unknown"
+        elif isinstance(v, str) and v == env.deny_reason:
+            r["rsn"] = "denied"
         else:
             r["rsn"] = "other"
     return r
@@ -337,115 +482,194 @@ def wait_oneway():
             t.join(2.0)
 
 
-def quiesce(srv, timeout=3.0):
+def quiesce(srv, base_busy=0, timeout=3.0):
     t0 = time.time()
     while time.time() - t0 < timeout:
         a = srv.accounting()
-        if a.get("busy", 0) == 0 and a.get("registered", 0) == 0:
+        if a.get("busy", 0) == base_busy and a.get("registered", 0) == 0:
             return True
         time.sleep(0.0005)
     return False
 
 
+FIRST_OK = {"type": 1, "wf": "ok", "ser": 1, "seq": 7, "flags": 0, "payload": {"k": "hs", "shape": "full", "obj": OBJ}}
+
+
 def probe_quirks(env, sty):
-    """which variant of the two known defects does the tree show (witnesses of findings/C08.json)"""
+    """which variant of the two repaired defects does the tree show (witnesses of findings/C08.json)"""
     if sty in env.quirks:
         return env.quirks[sty]
     q = []
     for spec_first, vbspec in (
-            ({"type": 1, "wf": "ok", "ser": 99, "seq": 7, "flags": 0, "payload": {"k": "hs", "shape": "full", "obj": OBJ}},
-             {"kind": "accept", "value": "hello"}),
-            ({"type": 1, "wf": "ok", "ser": 1, "seq": 7, "flags": 0, "payload": {"k": "hs", "shape": "full", "obj": OBJ}},
-             {"kind": "raise", "cls": "ConnectionClosedError", "msg": "auth backend down"})):
+            (dict(FIRST_OK, ser=99), {"kind": "accept", "value": "hello"}),
+            (dict(FIRST_OK), {"kind": "raise", "cls": "ConnectionClosedError", "msg": "auth backend down"})):
         case = {"sty": sty, "conns": [{"vb": vbspec, "segs": [[spec_first]]}], "order": [[0, 0]]}
         obs = run_impl(env, case, probe=True)
-        q.append(len(obs["segs"][0]["replies"]) == 0 and obs["segs"][0]["closed"])
+        q.append(len(obs["segs"][0]["replies"]) == 0 and obs["segs"][0]["end"] == "closed")
     env.quirks[sty] = tuple(q)
     return env.quirks[sty]
 
 
+def probe_abort(env):
+    """open finding: a validator raising a BaseException-only class gets no answer and no close (thread server witness)"""
+    if env.q3 is None:
+        case = {"sty": "thread", "env": "abort", "order": [[0, 0]],
+                "conns": [{"vb": {"kind": "abort", "cls": "SystemExit"}, "segs": [[dict(FIRST_OK)]]}]}
+        obs = run_impl(env, case, probe=True)
+        env.q3 = len(obs["segs"][0]["replies"]) == 0 and obs["segs"][0]["end"] == "silent"
+    return env.q3
+
+
+def read_until(cl, env, conn, seg, stop_seq, timeout):
+    """collect replies until the pong with seq stop_seq (-> "open"), EOF/RESET (-> "closed") or nothing arrives
+    within the timeout (-> "silent"); anything undecodable -> "garbage" """
+    from Pyro5 import protocol
+    while True:
+        m = cl.recv_msg(timeout=timeout)
+        if m in ("EOF", "RESET"):
+            return "closed"
+        if m == "TIMEOUT":
+            env.silences += 1
+            return "silent"
+        if isinstance(m, str) or "undecodable" in m:
+            return "garbage"
+        if stop_seq is not None and m["type"] == protocol.MSG_PING and m["seq"] == stop_seq:
+            return "open"
+        seg["replies"].append(canon_reply(env, m, conn["vb"]))
+
+
 def run_impl(env, case, probe=False):
     from Pyro5 import protocol
-    srv = env.server(case["sty"])
-    q1, q2 = (False, False) if probe else probe_quirks(env, case["sty"])
+    envname = case_env(case)
+    srv = env.server(case["sty"], envname)
+    if probe:
+        q1, q2, q3 = False, False, True
+    elif envname == "abort":
+        q3 = probe_abort(env)
+        srv = env.server(case["sty"], envname)      # a fresh throw-away server after the probe
+        q1, q2 = env.quirks.get(case["sty"], env.quirks.get("thread", (False, False)))
+    else:
+        q1, q2 = probe_quirks(env, case["sty"])
+        q3 = True if env.q3 is None else env.q3
+    tmo = ABORT_RECV_TIMEOUT if envname == "abort" else (RECV_TIMEOUT if env.silences < 20 else RECV_TIMEOUT_AFTER_MANY)
     clients, ports = {}, {}
     sync = [SYNC_BASE]
-    obs = {"segs": [], "anomalies": [], "q1": q1, "q2": q2}
+    obs = {"segs": [], "anomalies": [], "q1": q1, "q2": q2, "q3": q3}
     del EXEC_LOG[:]
-    closed_seen = {}
+    ended = {}          # connection -> "closed" | "silent" once seen
     try:
         for (c, si) in case["order"]:
             conn = case["conns"][c]
-            msgs = conn["segs"][si]
+            items = conn["segs"][si]
+            special = items[-1] if items and is_special(items[-1]) else None
+            msgs = [m for m in items if not is_special(m)]
             data = b"".join(build_message(m) for m in msgs)
             log0 = len(EXEC_LOG)
-            seg = {"replies": [], "closed": False, "execs": []}
+            seg = {"replies": [], "end": "open", "execs": []}
             if c not in clients:
-                cl = rd.RawClient(srv.port, timeout=RECV_TIMEOUT if env.silences < 20 else RECV_TIMEOUT_AFTER_MANY)
+                cl = rd.RawClient(srv.port, timeout=tmo)
                 clients[c] = cl
                 ports[cl.port] = c
                 env.vb[cl.port] = conn["vb"]
             cl = clients[c]
-            if closed_seen.get(c):
+            if ended.get(c):
                 cl.send(data)
-                seg["closed"] = True
+                seg["end"] = ended[c]
+            elif special and special["special"] == "gone":
+                # the peer sends its last bytes (possibly a message cut short) and goes away; the receiving side stays open
+                cl.send(data + special_bytes(special))
+                try:
+                    cl.sock.shutdown(socket.SHUT_WR)
+                except OSError:
+                    pass
+                seg["end"] = read_until(cl, env, conn, seg, None, tmo)
+                ended[c] = seg["end"] if seg["end"] in ("closed", "silent") else "closed"
             else:
-                cl.send(data)
-                sync[0] += 1
-                cl.send(rd.ping_msg(seq=sync[0]))
-                while True:
-                    m = cl.recv_msg()
-                    if m in ("EOF", "RESET"):
-                        seg["closed"] = True
-                        closed_seen[c] = True
-                        break
-                    if isinstance(m, str) or "undecodable" in m:
-                        if m == "TIMEOUT":
-                            env.silences += 1
-                        obs["anomalies"].append({"seg": len(obs["segs"]), "what": m if isinstance(m, str) else "undecodable reply"})
-                        break
-                    if m["type"] == protocol.MSG_PING and m["seq"] == sync[0]:
-                        break
-                    seg["replies"].append(canon_reply(env, m, conn["vb"]))
+                end = "open"
+                if data:
+                    cl.send(data)
+                    sync[0] += 1
+                    cl.send(rd.ping_msg(seq=sync[0]))
+                    end = read_until(cl, env, conn, seg, sync[0], tmo)
+                if special and special["special"] == "silence" and end == "open":
+                    # say nothing for longer than COMMTIMEOUT; whatever arrives meanwhile belongs to this segment
+                    end = read_until(cl, env, conn, seg, None, COMMTO * 2.5)
+                    env.silences -= 1 if end == "silent" else 0
+                    if end == "silent":
+                        sync[0] += 1
+                        cl.send(rd.ping_msg(seq=sync[0]))
+                        end = read_until(cl, env, conn, seg, sync[0], tmo)
+                seg["end"] = end
+                if end in ("closed", "silent"):
+                    ended[c] = end
+                if end == "garbage":
+                    obs["anomalies"].append({"seg": len(obs["segs"]), "what": "undecodable bytes from the daemon"})
+                    seg["end"] = "open"
             if any(m["flags"] & protocol.FLAGS_ONEWAY for m in msgs):
                 wait_oneway()
-            for (port, tok, meth) in EXEC_LOG[log0:]:
-                seg["execs"].append([ports.get(port, 999), tok if isinstance(tok, int) and not isinstance(tok, bool) and tok >= 0 else 999999, meth])
+            for (port, tok, meth, isd) in EXEC_LOG[log0:]:
+                seg["execs"].append([ports.get(port, 999), tok if isinstance(tok, int) and not isinstance(tok, bool) and tok >= 0 else 999999, meth, bool(isd)])
             obs["segs"].append(seg)
     finally:
         for cl in clients.values():
             env.vb.pop(cl.port, None)
             cl.close()
-        if not quiesce(srv):
-            obs["anomalies"].append({"seg": -1, "what": "server did not release the connections of this case"})
-        if not srv.loop_alive():
-            obs["anomalies"].append({"seg": -1, "what": "daemon request loop died: %r" % (srv.loop_exception,)})
-    # executions that arrive after the last segment (late oneway threads) would be attributed nowhere
+        obs["loop_alive"] = srv.loop_alive()
+        if envname == "abort":
+            env.stop()          # the server of such a case is not used again (leaked worker / ended loop)
+        else:
+            if not quiesce(srv, env.base_busy()):
+                obs["anomalies"].append({"seg": -1, "what": "server did not release the connections of this case"})
+            if not srv.loop_alive():
+                obs["anomalies"].append({"seg": -1, "what": "daemon request loop died: %r" % (srv.loop_exception,)})
     return obs
 
 
 # ---------------------------------------------------------------- the oracle: the property over the observations
 def first_must_fail(case, c, cls_first):
-    """the property's notion, from the input alone: is the first message of connection c anything else than a
-    well-formed CONNECT (known serializer) for a registered object that the validator accepts"""
+    """the property's notion, from the input alone: is the first event of connection c anything else than a
+    well-formed CONNECT (known serializer) for a registered object that the validator accepts, on a connection
+    the transport server did not refuse"""
     from Pyro5 import protocol
     vb = case["conns"][c]["vb"]
     m = cls_first
+    if m.get("special") or case_env(case) == "poolfull":
+        return True
     ok = (m["type"] == protocol.MSG_CONNECT and m["wf"] == "WfOk" and m["ser_known"] and m["hs"] == "HsFull ObjKnown" and vb["kind"] == "accept")
     return not ok
+
+
+def tokens_of(item):
+    if is_special(item):
+        return []
+    p = item["payload"]
+    if p["k"] == "dcall":
+        return [item["seq"]]
+    return [p["tok"]] if p.get("tok") is not None else []
 
 
 def oracle(env, case, obs, cls):
     from Pyro5 import protocol
     bad = []
     nconn = len(case["conns"])
+    denied = case_env(case) == "poolfull"
     firsts, per_conn = {}, {c: [] for c in range(nconn)}
     for i, (c, si) in enumerate(case["order"]):
         per_conn[c].append((i, si))
         if si == 0:
             firsts[c] = cls[i][0]
-    if any(a["what"].startswith("daemon request loop died") for a in obs["anomalies"]):
-        bad.append(("daemon-loop-died", "the daemon's request loop ended while playing the case"))
+    CONNECT = protocol.MSG_CONNECT
+
+    def reached(c):
+        m0, vb = firsts[c], case["conns"][c]["vb"]
+        return (not denied and not m0.get("special") and m0["type"] == CONNECT and m0["wf"] == "WfOk" and m0["ser_known"]
+                and m0["hs"] in ("HsNoObjectKey", "HsFull ObjKnown", "HsFull ObjUnknown", "HsFull ObjBad"))
+    aborting = [c for c in range(nconn) if per_conn[c] and case["conns"][c]["vb"]["kind"] == "abort" and reached(c)]
+    if not obs.get("loop_alive", True):
+        if aborting:
+            bad.append(("validator-baseexception-unanswered", "validator raised %s: the daemon's request loop ended, no connection is served any more" % case["conns"][aborting[0]]["vb"]["cls"]))
+        else:
+            bad.append(("daemon-loop-died", "the daemon's request loop ended while playing the case"))
     connok_at = {}
     for c in range(nconn):
         if not per_conn[c]:
@@ -461,65 +685,78 @@ def oracle(env, case, obs, cls):
         if not must_fail:
             continue
         o0 = obs["segs"][i0]
-        CONNECT = protocol.MSG_CONNECT
-        validator_reached = m0["type"] == CONNECT and m0["wf"] == "WfOk" and m0["ser_known"] and m0["hs"] in ("HsNoObjectKey", "HsFull ObjKnown", "HsFull ObjUnknown", "HsFull ObjBad")
-        if m0["type"] != CONNECT:
+        validator_reached = reached(c)
+        gone = m0.get("special") == "gone"
+        if gone:
+            cause = "peer went away before completing its first message"
+        elif m0.get("special") == "silence":
+            cause = "silence beyond COMMTIMEOUT"
+        elif m0["type"] != CONNECT:
             cause = "type %d instead of CONNECT" % m0["type"]
         elif m0["wf"] != "WfOk":
             cause = "malformed CONNECT message"
+        elif denied:
+            cause = "no free worker in the thread pool"
         elif not m0["ser_known"]:
             cause = "unknown serializer id %d" % m0["ser"]
-        elif validator_reached and vb["kind"] == "raise":
+        elif validator_reached and vb["kind"] in ("raise", "abort"):
             cause = "validator raises %s" % vb["cls"]
         elif m0["hs"] == "HsFull ObjUnknown":
             cause = "unknown object"
         else:
             cause = "handshake payload %s" % m0["hs"]
         if c in connok_at:
-            bad.append(("handshake-accepted-wrongly", "first message (%s) was answered CONNECTOK" % cause))
+            bad.append(("handshake-accepted-wrongly", "first event (%s) was answered CONNECTOK" % cause))
         fails = [r for r in o0["replies"] if r["type"] == protocol.MSG_CONNECTFAIL]
         others = [r for r in o0["replies"] if r["type"] not in (protocol.MSG_CONNECTFAIL, protocol.MSG_CONNECTOK)]
-        if not fails and c not in connok_at:
-            if m0["type"] == CONNECT and m0["wf"] == "WfOk" and not m0["ser_known"]:
-                bad.append(("silent-close-unknown-serializer", "CONNECT with unknown serializer id %d: no CONNECTFAIL was sent (closed=%s)" % (m0["ser"], o0["closed"])))
+        is_abort = validator_reached and vb["kind"] == "abort"
+        if is_abort and (not fails or o0["end"] != "closed") and c not in connok_at:
+            bad.append(("validator-baseexception-unanswered", "validator raised %s: CONNECTFAIL sent: %s, connection %s" % (
+                vb["cls"], bool(fails), {"closed": "closed", "silent": "left open and unserved", "open": "still served"}[o0["end"]])))
+        elif not fails and c not in connok_at and not gone:      # a peer that is gone cannot be answered
+            if m0["type"] == CONNECT and m0["wf"] == "WfOk" and not m0["ser_known"] and not denied:
+                bad.append(("silent-close-unknown-serializer", "CONNECT with unknown serializer id %d: no CONNECTFAIL was sent (%s)" % (m0["ser"], o0["end"])))
             elif validator_reached and vb["kind"] == "raise" and m0["val"] == "VRaise true":
-                bad.append(("silent-close-validator-connclosed", "validator raised %s: no CONNECTFAIL was sent (closed=%s)" % (vb["cls"], o0["closed"])))
+                bad.append(("silent-close-validator-connclosed", "validator raised %s: no CONNECTFAIL was sent (%s)" % (vb["cls"], o0["end"])))
             else:
-                bad.append(("missing-connectfail", "failing first message (%s): no CONNECTFAIL was sent" % cause))
+                bad.append(("missing-connectfail", "failing first event (%s): no CONNECTFAIL was sent" % cause))
         if len(fails) > 1:
             bad.append(("reply-after-failed-handshake", "more than one CONNECTFAIL"))
         if others:
-            bad.append(("reply-after-failed-handshake", "failing first message (%s): the peer also got replies of type %s" % (cause, [r["type"] for r in others])))
+            bad.append(("reply-after-failed-handshake", "failing first event (%s): the peer also got replies of type %s" % (cause, [r["type"] for r in others])))
         for r in fails[:1]:
             if validator_reached and vb["kind"] == "raise":
                 if r["rsn"] != "validator":
                     bad.append(("wrong-reason", "validator raised %s(%r) but CONNECTFAIL carries %r" % (vb["cls"], vb["msg"], r["text"])))
-            elif m0["type"] != CONNECT or (m0["hs"] == "HsFull ObjUnknown" and vb["kind"] == "accept" and m0["wf"] == "WfOk" and m0["ser_known"]):
+            elif m0.get("special") or (denied and m0["wf"] == "WfOk") or m0["type"] != CONNECT or \
+                    (m0["hs"] == "HsFull ObjUnknown" and vb["kind"] == "accept" and m0["wf"] == "WfOk" and m0["ser_known"]):
                 if not (isinstance(r["text"], str) and r["text"].strip() and r["text"] != "None"):
                     bad.append(("empty-reason", "CONNECTFAIL for (%s) carries no reason text" % cause))
-        if not o0["closed"]:
-            bad.append(("not-closed-after-failed-handshake", "failing first message (%s): the connection was still served afterwards" % cause))
+        if o0["end"] != "closed" and not is_abort:
+            bad.append(("not-closed-after-failed-handshake", "failing first event (%s): the connection was %s afterwards" % (
+                cause, "still served" if o0["end"] == "open" else "neither served nor closed")))
         for (i, si) in per_conn[c][1:]:
-            if obs["segs"][i]["replies"] or not obs["segs"][i]["closed"]:
+            if obs["segs"][i]["replies"] or obs["segs"][i]["end"] == "open":
                 bad.append(("reply-after-failed-handshake", "messages sent after the failed handshake (%s) were answered / connection open" % cause))
-    # executions: only for a connection that was answered CONNECTOK before, whose first message may be accepted
+    # executions: only for a connection that was answered CONNECTOK before, whose first event may be accepted
     for i, seg in enumerate(obs["segs"]):
         c_seg = case["order"][i][0]
         sent = set()
         for (c, si) in case["order"][:i + 1]:
-            for m in case["conns"][c]["segs"][si]:
-                if m["payload"].get("tok") is not None and c == c_seg:
-                    sent.add(m["payload"]["tok"])
-        for (ec, tok, meth) in seg["execs"]:
+            if c == c_seg:
+                for m in case["conns"][c]["segs"][si]:
+                    sent.update(tokens_of(m))
+        for (ec, tok, meth, isd) in seg["execs"]:
+            name = ("Pyro.Daemon." if isd else "") + meth
             if meth in ("hidden", "_private"):
                 bad.append(("unexposed-method-ran", "method %s ran" % meth))
             if ec == 999:
-                bad.append(("exec-without-handshake", "method %s(%s) ran on behalf of a connection the case does not know" % (meth, tok)))
+                bad.append(("exec-without-handshake", "method %s(%s) ran on behalf of a connection the case does not know" % (name, tok)))
                 continue
             if ec not in connok_at or connok_at[ec] > i or first_must_fail(case, ec, firsts[ec]):
-                bad.append(("exec-without-handshake", "method %s(%s) ran for connection %d which never completed an accepted handshake" % (meth, tok, ec)))
+                bad.append(("exec-without-handshake", "method %s(%s) ran for connection %d which never completed an accepted handshake" % (name, tok, ec)))
             elif ec != c_seg or tok not in sent:
-                bad.append(("exec-not-on-behalf", "method %s(%s) ran for connection %d while connection %d was sending" % (meth, tok, ec, c_seg)))
+                bad.append(("exec-not-on-behalf", "method %s(%s) ran for connection %d while connection %d was sending" % (name, tok, ec, c_seg)))
     seen, out = set(), []
     for sig, what in bad:
         if sig not in seen:
@@ -560,8 +797,22 @@ class Gen:
         return {"type": mtype, "wf": wf, "ser": rng.choice(self.known) if ser is None else ser, "seq": rng.randrange(0, 50000),
                 "flags": flags, "payload": payload, "ann": rng.random() < 0.1}
 
+    def dcall(self, oneway=None):
+        """a call on the daemon's own Pyro.Daemon object; its token is the message's sequence number"""
+        rng = self.rng
+        method, args = rng.choice([("ping", []), ("registered", []), ("info", []), ("get_metadata", [OBJ]), ("get_metadata", ["nope"]),
+                                   ("close_stream", ["s1"]), ("get_next_stream_item", ["s1"]), ("ping", [1]), ("nosuch", []),
+                                   ("get_metadata", [DAEMON_OBJ])])
+        m = self.base(4, {"k": "dcall", "method": method, "args": args})
+        m["seq"] = 30000 + self.token()
+        if oneway if oneway is not None else rng.random() < 0.15:
+            m["flags"] |= 4
+        return m
+
     def call(self, oneway=None, method=None, obj=None):
         rng = self.rng
+        if method is None and obj is None and rng.random() < 0.2:
+            return self.dcall(oneway)
         method = method or rng.choice(["ok", "ok", "ok", "boom", "hidden", "_private", "nosuch", "__class__"])
         obj = obj or rng.choice([OBJ, OBJ, OBJ, OBJ, "nope", ""])
         k = "call" if rng.random() < 0.9 else rng.choice(["call_evil", "call_badargs"])
@@ -632,8 +883,22 @@ class Gen:
             return self.base(4, self.hs_payload(rng.random() < 0.5))
         return self.base(4, {"k": "raw", "hex": rng.choice([b"", b"\x00\x01garbage", b"{"]).hex()})
 
-    def connection(self):
+    def gone(self, first):
+        """the peer goes away: plain EOF, or a prefix of an otherwise acceptable message and then EOF"""
         rng = self.rng
+        if rng.random() < 0.3:
+            return {"special": "gone", "trunc": None, "cut": 0}
+        if first:
+            t = self.base(1, self.hs_payload(True))
+        else:
+            t = rng.choice([self.call(oneway=False, method="ok", obj=OBJ), self.ping()])
+        t["flags"] &= ~2
+        return {"special": "gone", "trunc": t, "cut": rng.choice([0, 1, 3, 5, 6, 7, 20, 39, 40, 41, 47, 60, rng.randrange(0, 120)])}
+
+    def connection(self, gone_prob=0.12, first_special=0.05):
+        rng = self.rng
+        if rng.random() < first_special:
+            return {"vb": gen_vb(rng), "segs": [[self.gone(True)]]}
         first = self.first_message()
         seg0 = [first]
         if rng.random() < 0.7:           # pipelined in the same TCP segment behind the first message
@@ -642,12 +907,66 @@ class Gen:
         segs = [seg0]
         for _ in range(rng.choice([0, 1, 1, 2, 3])):
             segs.append([self.later_message() for _ in range(rng.choice([1, 1, 2, 3]))])
+        if rng.random() < gone_prob:
+            segs[-1].append(self.gone(False))
         return {"vb": gen_vb(rng), "segs": segs}
+
+    def timeout_case(self, sty=None):
+        """COMMTIMEOUT configured, one connection, one or two silences"""
+        rng = self.rng
+        self.tok = 0
+        sil = {"special": "silence"}
+        r = rng.random()
+        if r < 0.3:
+            segs = [[dict(sil)], [self.call()]]
+        else:
+            conn = self.connection(gone_prob=0.0, first_special=0.0)
+            segs = conn["segs"][:2]
+            k = rng.randrange(len(segs))
+            segs[k] = segs[k] + [dict(sil)]
+            segs.append([self.call(), self.ping()])
+            if rng.random() < 0.25:
+                segs[-1].append(dict(sil))
+        vb = gen_vb(rng, 0.7)
+        return {"sty": sty or rng.choice(["thread", "multiplex"]), "env": "timeout", "conns": [{"vb": vb, "segs": segs}],
+                "order": [[0, i] for i in range(len(segs))]}
+
+    def poolfull_case(self):
+        """thread pool exhausted: every connection of the case is refused from the accept loop"""
+        rng = self.rng
+        self.tok = 0
+        conns = []
+        for _ in range(rng.choice([1, 1, 2])):
+            conn = self.connection(gone_prob=0.1, first_special=0.1)
+            if rng.random() < 0.06:
+                conn["segs"] = [[{"special": "silence"}], [self.call()]]
+            if rng.random() < 0.5:          # mostly well-formed CONNECTs: the "no free workers" answer
+                conn["segs"][0][0] = self.base(1, self.hs_payload(True)) if not is_special(conn["segs"][0][0]) else conn["segs"][0][0]
+            conns.append(conn)
+        case = self.interleave(conns, "thread")
+        case["env"] = "poolfull"
+        return case
+
+    def abort_case(self, sty, cls=None):
+        """the validator raises a BaseException-only class for connection 1; connection 0 is an accepted witness"""
+        rng = self.rng
+        self.tok = 0
+        good = {"type": 1, "wf": "ok", "ser": rng.choice(self.known), "seq": 9, "flags": 0, "ann": False,
+                "payload": {"k": "hs", "shape": "full", "obj": OBJ}}
+        w = {"vb": {"kind": "accept", "value": "hello"}, "segs": [[dict(good), self.call(oneway=False, method="ok", obj=OBJ)],
+                                                                    [self.call(oneway=False, method="ok", obj=OBJ), self.dcall(False)]]}
+        a = {"vb": {"kind": "abort", "cls": cls or rng.choice(ABORT_NAMES)},
+             "segs": [[dict(good, seq=10), self.call(oneway=False, method="ok", obj=OBJ)], [self.call(oneway=False, method="ok", obj=OBJ)]]}
+        return {"sty": sty, "env": "abort", "conns": [w, a], "order": [[0, 0], [1, 0], [0, 1], [1, 1]]}
 
     def case(self, sty=None):
         rng = self.rng
         self.tok = 0
         conns = [self.connection() for _ in range(rng.choice([1, 1, 2, 2, 3]))]
+        return self.interleave(conns, sty or rng.choice(["thread", "multiplex"]))
+
+    def interleave(self, conns, sty):
+        rng = self.rng
         order = []
         left = [[c, 0] for c in range(len(conns))]
         while left:
@@ -658,12 +977,13 @@ class Gen:
                 left[k][1] += 1
             else:
                 left.pop(k)
-        return {"sty": sty or rng.choice(["thread", "multiplex"]), "conns": conns, "order": order}
+        return {"sty": sty, "conns": conns, "order": order}
 
 
-def targeted(info):
+def targeted(info, thorough=False):
     """the product the property quantifies over, one connection each: every first-message type x valid/malformed x
-    serializer id x payload shape, with an INVOKE pipelined in the same segment; every validator behaviour"""
+    serializer id x payload shape, with an INVOKE pipelined in the same segment; every validator behaviour; calls on the
+    daemon's own object before and after the handshake; peers going away; silences; a full thread pool; aborting validators"""
     out = []
     tok = [1000]
 
@@ -672,11 +992,24 @@ def targeted(info):
         return {"type": 4, "wf": "ok", "ser": 1, "seq": 11, "flags": 4 if oneway else 0, "ann": False,
                 "payload": {"k": "call", "obj": OBJ, "method": "ok", "tok": tok[0]}}
 
-    def one(first, vb, sty):
-        segs = [[first, inv(), inv(True)], [inv(), {"type": 6, "wf": "ok", "ser": 1, "seq": 12, "flags": 0, "ann": False, "payload": {"k": "raw", "hex": "70696e67"}}]]
-        out.append({"sty": sty, "conns": [{"vb": vb, "segs": segs}], "order": [[0, 0], [0, 1]]})
+    def dinv(method="ping", args=(), oneway=False, mtype=4):
+        tok[0] += 1
+        return {"type": mtype, "wf": "ok", "ser": 1, "seq": 30000 + tok[0], "flags": 4 if oneway else 0, "ann": False,
+                "payload": {"k": "dcall", "method": method, "args": list(args)}}
+    ping = {"type": 6, "wf": "ok", "ser": 1, "seq": 12, "flags": 0, "ann": False, "payload": {"k": "raw", "hex": "70696e67"}}
+
+    def one(first, vb, sty, env="plain", tail=None):
+        segs = [[first, inv(), dinv("registered"), inv(True)], [inv(), dict(ping)]]
+        if is_special(first):
+            segs = [[first], [inv()]]
+        if tail:
+            segs = segs + tail
+        out.append({"sty": sty, "env": env, "conns": [{"vb": vb, "segs": segs}], "order": [[0, i] for i in range(len(segs))]})
     acc = {"kind": "accept", "value": "hello"}
     good = {"k": "hs", "shape": "full", "obj": OBJ}
+
+    def connect(ser=1, payload=None, seq=9, wf="ok", t=1):
+        return {"type": t, "wf": wf, "ser": ser, "seq": seq, "flags": 0, "ann": False, "payload": dict(payload or good)}
     extra_types = sorted(set(info.get("first_types", [])) | set(TYPES_ALL))
     for sty in ("thread", "multiplex"):
         for t in extra_types:
@@ -684,25 +1017,61 @@ def targeted(info):
                 for p in (good, {"k": "call", "obj": OBJ, "method": "ok", "tok": 999}):
                     if sty == "multiplex" and ser in (2, 4) and t not in (1, 4):
                         continue
-                    one({"type": t, "wf": "ok", "ser": ser, "seq": 9, "flags": 0, "ann": False, "payload": dict(p)}, acc, sty)
+                    one(connect(ser, p, t=t), acc, sty)
             for wf in WF_BAD:
-                one({"type": t, "wf": wf, "ser": 1, "seq": 9, "flags": 0, "ann": False, "payload": dict(good)}, acc, sty)
+                one(connect(wf=wf, t=t), acc, sty)
         for shape in ("nohandshake", "noobject", "list", "str", "int", "objlist", "none", "extra"):
             for ser in (1, 3):
-                one({"type": 1, "wf": "ok", "ser": ser, "seq": 9, "flags": 0, "ann": False, "payload": {"k": "hs", "shape": shape, "obj": OBJ}}, acc, sty)
+                one(connect(ser, {"k": "hs", "shape": shape, "obj": OBJ}), acc, sty)
         for obj in ("nope", "", "Pyro.Daemon"):
-            one({"type": 1, "wf": "ok", "ser": 1, "seq": 9, "flags": 0, "ann": False, "payload": {"k": "hs", "shape": "full", "obj": obj}}, acc, sty)
+            one(connect(payload={"k": "hs", "shape": "full", "obj": obj}), acc, sty)
         for cls in EXC_NAMES:
-            one({"type": 1, "wf": "ok", "ser": 1, "seq": 9, "flags": 0, "ann": False, "payload": dict(good)},
-                {"kind": "raise", "cls": cls, "msg": "denied:%s" % cls}, sty)
+            one(connect(), {"kind": "raise", "cls": cls, "msg": "denied:%s" % cls}, sty)
         for v in VALUE_NAMES:
             for ser in (1, 3):
-                one({"type": 1, "wf": "ok", "ser": ser, "seq": 9, "flags": 0, "ann": False, "payload": dict(good)},
-                    {"kind": "accept", "value": v}, sty)
+                one(connect(ser), {"kind": "accept", "value": v}, sty)
+        # the daemon's own object: as the first message, pipelined behind a refusal, and after an accepted handshake
+        for method, args in (("ping", ()), ("registered", ()), ("info", ()), ("get_metadata", (OBJ,)), ("get_metadata", ("nope",)),
+                             ("close_stream", ("s",)), ("get_next_stream_item", ("s",))):
+            one(dinv(method, args), acc, sty)
+            one(connect(), {"kind": "raise", "cls": "ValueError", "msg": "denied:d"}, sty, tail=[[dinv(method, args), dinv(method, args, True)]])
+            one(connect(), acc, sty, tail=[[dinv(method, args), dinv(method, args, True), dinv(method, args, mtype=1)]])
+        # the peer goes away: before / inside its first message, and later
+        for cut in (0, 3, 6, 20, 39, 40, 41, 60):
+            one({"special": "gone", "trunc": connect(), "cut": cut}, acc, sty)
+            one(connect(), acc, sty, tail=[[inv(), {"special": "gone", "trunc": inv(), "cut": cut}]])
+        one(connect(), {"kind": "raise", "cls": "ValueError", "msg": "denied:g"}, sty, tail=[[inv(), {"special": "gone", "trunc": None, "cut": 0}]])
+        # silence beyond COMMTIMEOUT: as the first event, after an accepted handshake, after a refused one
+        sil = {"special": "silence"}
+        one(dict(sil), acc, sty, env="timeout")
+        one(connect(), acc, sty, env="timeout", tail=[[inv(), dict(sil)], [inv()]])
+        one(connect(), {"kind": "raise", "cls": "KeyError", "msg": "denied:s"}, sty, env="timeout", tail=[[dict(sil)], [inv()]])
+    # a full thread pool: every first event is refused from the accept loop
+    for t in extra_types:
+        one(connect(t=t), acc, "thread", env="poolfull")
+    for ser in (2, 3, 99):
+        one(connect(ser), acc, "thread", env="poolfull")
+    for wf in ("hdr:tag", "hdr:size", "body:tile", "body:zlib"):
+        one(connect(wf=wf), acc, "thread", env="poolfull")
+    one(connect(payload={"k": "hs", "shape": "full", "obj": "nope"}), {"kind": "raise", "cls": "ValueError", "msg": "x"}, "thread", env="poolfull")
+    one({"special": "gone", "trunc": connect(), "cut": 45}, acc, "thread", env="poolfull")
+    one({"special": "gone", "trunc": None, "cut": 0}, acc, "thread", env="poolfull")
+    one({"special": "silence"}, acc, "thread", env="poolfull")
     return out
 
 
+def abort_cases(g, thorough):
+    """validators raising a BaseException-only class; each case runs on a throw-away server"""
+    pairs = [("thread", "SystemExit"), ("multiplex", "KeyboardInterrupt")]
+    if thorough:
+        pairs = [(sty, cls) for sty in ("thread", "multiplex") for cls in ABORT_NAMES]
+    return [g.abort_case(sty, cls) for sty, cls in pairs]
+
+
 # ---------------------------------------------------------------- check.py interface
+REGISTERED = {DAEMON_OBJ: True, OBJ: True}
+
+
 def gen_info(ctx):
     from tools.gen import gen
     st = gen.regenerate(ctx.tree, only=["GenHandshake"])["GenHandshake"]
@@ -710,19 +1079,19 @@ def gen_info(ctx):
 
 
 def classify_case(env, case):
-    srv = env.server(case["sty"])
-    registered = srv.daemon.objectsById
+    if env.exc is None:
+        env.exc = _exc_table()
     cls = []
     for (c, si) in case["order"]:
         conn = case["conns"][c]
-        cls.append([classify(m, registered, conn["vb"], env.exc) for m in conn["segs"][si]])
+        cls.append([{"special": m["special"]} if is_special(m) else classify(m, REGISTERED, conn["vb"], env.exc) for m in conn["segs"][si]])
     return cls
 
 
 def short_obs(obs):
     return {"segs": [{"replies": [[r["type"], r["exc"], r["seq"], r["ser"], r["rsn"], r["text"]] for r in s["replies"]],
-                      "execs": s["execs"], "closed": s["closed"]} for s in obs["segs"]],
-            "anomalies": obs["anomalies"], "quirks": [obs["q1"], obs["q2"]]}
+                      "execs": s["execs"], "end": s["end"]} for s in obs["segs"]],
+            "anomalies": obs["anomalies"], "quirks": [obs["q1"], obs["q2"], obs["q3"]], "loop_alive": obs.get("loop_alive")}
 
 
 def nontrivial(case, obs):
@@ -731,16 +1100,28 @@ def nontrivial(case, obs):
 
 def execute(ctx, env, cases, model_ok, res, collect=True):
     lits, kept = [], []
+    cases = sorted(cases, key=lambda k: ENV_ORDER.index(case_env(k)))      # stable: one environment after the other
     for case in cases:
         cls = classify_case(env, case)
         obs = run_impl(env, case)
         res.seen(case, nontrivial(case, obs))
         for c in case["conns"]:
             m0 = c["segs"][0][0]
-            res.count("first:type%d:%s:ser%s" % (m0["type"], m0["wf"].split(":")[0], "known" if m0["ser"] in (1, 2, 3, 4) else "unknown"))
-            res.count("validator:" + (c["vb"]["kind"] if c["vb"]["kind"] == "accept" else "raise"))
+            if is_special(m0):
+                res.count("first:" + m0["special"])
+            else:
+                res.count("first:type%d:%s:ser%s" % (m0["type"], m0["wf"].split(":")[0], "known" if m0["ser"] in (1, 2, 3, 4) else "unknown"))
+            res.count("validator:" + c["vb"]["kind"])
+            for sg in c["segs"]:
+                for m in sg:
+                    if is_special(m):
+                        res.count("event:" + m["special"])
+                    elif m["payload"]["k"] == "dcall":
+                        res.count("event:daemon-object-call")
         res.count("servertype:" + case["sty"])
+        res.count("env:" + case_env(case))
         res.count("execs", sum(len(s["execs"]) for s in obs["segs"]))
+        res.count("execs-daemon-object", sum(1 for s in obs["segs"] for e in s["execs"] if e[3]))
         res.count("connections", len(case["conns"]))
         res.count("segments", len(case["order"]))
         for i0 in [i for i, (c, si) in enumerate(case["order"]) if si == 0]:
@@ -750,7 +1131,7 @@ def execute(ctx, env, cases, model_ok, res, collect=True):
             res.violations.append({"signature": sig, "what": what, "case": case})
         if obs["anomalies"]:
             res.count("anomalies", len(obs["anomalies"]))
-            res.mismatches.append({"component": "C08-driver", "case": case, "impl": short_obs(obs), "model": "unexpected silence / garbage / leak"})
+            res.mismatches.append({"component": "C08-driver", "case": case, "impl": short_obs(obs), "model": "garbage / leak / dead loop"})
             continue
         if collect:
             lits.append(c_case(case, obs, cls))
@@ -762,27 +1143,40 @@ def execute(ctx, env, cases, model_ok, res, collect=True):
     return res
 
 
+def all_cases(ctx, info, scale_random=True):
+    g = Gen(ctx.rng, info)
+    thorough = not ctx.quick
+    cases = vlib.load_corpus(PROP) + targeted(info, thorough)
+    cases += [g.case() for _ in range(ctx.n(1100, 11000))]
+    cases += [g.timeout_case() for _ in range(ctx.n(10, 70))]
+    cases += [g.poolfull_case() for _ in range(ctx.n(60, 600))]
+    cases += abort_cases(g, thorough)
+    return cases
+
+
 def run(ctx, model_ok=True):
     res = vlib.Result()
     info = gen_info(ctx)
     env = Env()
+    env.deny_reason = info.get("deny_reason", env.deny_reason)
+    cases = []
     try:
-        env.server("thread")
-        env.server("multiplex")
-        g = Gen(ctx.rng, info)
-        cases = vlib.load_corpus(PROP) + targeted(info) + [g.case() for _ in range(ctx.n(1200, 12000))]
+        cases = all_cases(ctx, info)
         execute(ctx, env, cases, model_ok, res)
         for sty, q in env.quirks.items():
             res.quirks["%s:silent_unknown_serializer" % sty] = q[0]
             res.quirks["%s:silent_validator_connclosed" % sty] = q[1]
+        res.quirks["validator_baseexception_unanswered"] = env.q3
     finally:
         env.stop()
     res.rule = ("real daemons of both server types on loopback; per case 1-3 raw connections with interleaved segments; first "
-                "message = every type x well-formed/8 kinds of damage x known/unknown serializer id x handshake payload shape "
-                "(valid, missing keys, non-dict, unhashable/unknown/daemon object id, undecodable, a call payload), validator "
-                "accepting with 15 values (falsy, unserialisable) or raising one of 31 Exception classes; INVOKEs (also oneway) "
-                "pipelined in the same TCP write behind the first message and in later segments; non-trivial = at least two "
-                "messages; distinct = distinct case hash")
+                "event = every message type x well-formed/8 kinds of damage x known/unknown serializer id x handshake payload shape "
+                "(valid, missing keys, non-dict, unhashable/unknown/daemon object id, undecodable, a call payload), or the peer going "
+                "away (EOF / message cut at any offset), or silence beyond COMMTIMEOUT, or a connection refused by a full thread pool; "
+                "validator accepting with 15 values (falsy, unserialisable), raising one of 31 Exception classes, or raising a "
+                "BaseException-only class (throw-away servers); INVOKEs on the application object and on the daemon's own Pyro.Daemon "
+                "object (also oneway) pipelined in the same TCP write behind the first message and in later segments; non-trivial = "
+                "at least two events; distinct = distinct case hash")
     res.samples = cases[-2:] + cases[:1] if cases else []
     return res
 
@@ -791,9 +1185,12 @@ def search(ctx, broken):
     res = vlib.Result()
     info = gen_info(ctx)
     env = Env()
+    env.deny_reason = info.get("deny_reason", env.deny_reason)
     try:
         g = Gen(ctx.rng, info)
         cases = [b["case"] for b in broken if b.get("case")] + targeted(info) + [g.case() for _ in range(ctx.n(150, 600))]
+        cases += [g.poolfull_case() for _ in range(ctx.n(20, 60))] + [g.timeout_case() for _ in range(ctx.n(1, 3))]
+        cases = sorted(cases, key=lambda k: ENV_ORDER.index(case_env(k)))
         for case in cases:
             cls = classify_case(env, case)
             obs = run_impl(env, case)
@@ -809,13 +1206,13 @@ def search(ctx, broken):
 
 def replay(ctx, case):
     env = Env()
+    env.deny_reason = gen_info(ctx).get("deny_reason", env.deny_reason)
     try:
         cls = classify_case(env, case)
         obs = run_impl(env, case)
         bad = oracle(env, case, obs, cls)
         if bad:
             return True, {"oracle": bad, "impl": short_obs(obs)}
-        res = vlib.Result()
         lit = c_case(case, obs, cls)
         idx = vlib.run_cases(ctx, "r", IMPORTS, "case", "check_case", [lit])
         if idx or obs["anomalies"]:
